@@ -230,13 +230,13 @@ theorem observeRec_lists (P : Params) (jr : JobRec) (b : Nat) (o : Obj) :
     (observeRec P jr b o).1.js.objs = jr.js.objs ++ [o] ∧
     (observeRec P jr b o).1.js.budgets = jr.js.budgets ++ [b] := by
   cases hk : P.kind with
-  | idle => simp [observeRec, hk, baseObserve]
-  | const st => simp [observeRec, hk, baseObserve]
+  | idle => simp [observeRec, hk, baseObserve, transformObjective]
+  | const st => simp [observeRec, hk, baseObserve, transformObjective]
   | sha ms rf mesr mc mfc eps =>
-    simp only [observeRec, hk, baseObserve]
+    simp only [observeRec, hk, baseObserve, transformObjective]
     by_cases ht : shaHB ms rf mesr jr.js.rung ≤ (b : Int) <;> cases o <;> simp [ht]
   | median ms mc iv eps =>
-    simp only [observeRec, hk, baseObserve]
+    simp only [observeRec, hk, baseObserve, transformObjective]
     split <;> simp
 
 /-- `interval_steps ≠ 0` (the only way `record` can raise) -/
